@@ -457,6 +457,20 @@ pub fn exec(op: &str, fmt: &str, payload: &str) -> Result<String, String> {
                 ser::lnarsese,
             )
         }
+        "peg" => {
+            // C11: what the library's ASCII lexical parser returns for the text (the driver answers with
+            // what the published README grammar derives)
+            let f = lfmt("ascii")?;
+            let s = rd.string()?;
+            show(
+                guard(|| {
+                    f.parse(&s).map_err(|e| {
+                        let _ = e.to_string();
+                    })
+                }),
+                ser::lnarsese,
+            )
+        }
         "lparseterm" => {
             let f = lfmt(fmt)?;
             let s = rd.string()?;
